@@ -6,6 +6,7 @@ import PgVerif.Spec.Viable
 import PgVerif.Model.LineCol
 import PgVerif.Model.TableGen
 import PgVerif.Spec.LR1
+import PgVerif.Spec.Prec
 import PgVerif.Generated.Source
 /-!
 `pgmodel`: line-protocol driver. One request per line (a command word followed
@@ -152,6 +153,18 @@ def encGenTable (t : GenTable) : List Nat :=
       [c.1, if f then 1 else 0, c.2.length] ++ c.2.flatMap encAction) ++
     [s.gotos.length] ++ s.gotos.flatMap (fun x => [x.1, x.2]))
 
+partial def showETree : ETree → String
+  | .num => "n"
+  | .bin k l r => s!"({k} {showETree l} {showETree r})"
+  | .paren t => s!"[{showETree t}]"
+
+def decETok (n : Nat) : ETok :=
+  match n with
+  | 0 => .num
+  | 1 => .lpar
+  | 2 => .rpar
+  | k + 3 => .op k
+
 structure St where
   g : Grammar := default
   gg : GGrammar := default
@@ -196,6 +209,18 @@ def handle (st : St) (cmd : String) (args : List Nat) : St × String :=
         | some (.extra s a p) => s!"faithful extra state={s} terminal={a} prod={p}"
         | none => "faithful fuel")
     | _, _ => (st, "bad-faithful")
+  | "climb" =>
+    -- climb <nops> {prio left} <ntoks> {tok}
+    match (do
+      let ops ← rdList (do let p ← rd; let l ← rd; pure (p, l != 0))
+      let toks ← rdList (decETok <$> rd)
+      pure (ops, toks) : Rd (List (Nat × Bool) × List ETok)).run args with
+    | some ((ops, toks), _) =>
+      let ot : OpTable := { prio := fun k => (ops.getD k (0, true)).1, left := fun k => (ops.getD k (0, true)).2 }
+      (st, match climb ot toks with
+        | some t => "climb " ++ showETree t ++ (if t.conventional ot then " conv" else " NOTCONV")
+        | none => "climb none")
+    | none => (st, "bad-climb")
   | "firstsets" => (st, "firstsets " ++ natList (firstSets st.gg))
   | "table" =>
     match rdTable.run args with
